@@ -39,7 +39,7 @@ ASSUMPTIONS = ["'unloading has completed' = the awaitable returned by overlay.un
                "the endpoint itself stays open (other overlays may use it); only the overlay's own sockets must be closed"]
 REACH = ["unload_with_pending_tasks", "unload_with_open_exit_transports", "unload_with_outstanding_caches", "late_datagrams_delivered",
          "register_after_unload_refused", "tm_duplicate_name_refused", "tm_replace_ordered", "tm_slow_cleanup", "scenario:tunnel", "scenario:dht",
-         "scenario:attestation", "scenario:identity", "scenario:multi", "scenario:service", "scenario:dhtcrawl", "scenario:bcast", "scenario:exitrace", "scenario:attest_slow", "create_sent_to_overlay_being_unloaded",
+         "scenario:attestation", "scenario:identity", "scenario:multi", "scenario:service", "scenario:dhtcrawl", "scenario:bcast", "scenario:exitrace", "scenario:attest_slow", "endpoint_wrapped_in_tunnel_endpoint", "create_sent_to_overlay_being_unloaded",
          "script_operation_abandoned_after_unload"]
 
 SCN = ["community", "bcast", "discovery", "dht", "dhtdiscovery", "tunnel", "hidden", "pex", "attestation", "attest_slow", "identity", "multi",
@@ -71,6 +71,10 @@ def cases(tier: str, base_seed: int):  # noqa: ANN201
         n += 1
         yield {"scenario": "service", "seed": base_seed + n, "knobs": {}, "node": (0, 2)[k % 2], "step": k % 3, "offset": off,
                "walk_interval": 12.0}
+    # the multiplexed node behind a TunnelEndpoint (what ipv8_service wraps the endpoint in as soon as one overlay asks for anonymity)
+    for step in range(STEPS["multi"]):
+        n += 1
+        yield {"scenario": "multi", "seed": base_seed + n, "knobs": {}, "node": 0, "step": step, "offset": 0.0, "ep_kind": "tunnel"}
     # several asynchronous handlers of one message type and one sender suspended at once (the application answers late)
     for off, rep in ((0.0, 2), (0.5, 3), (1.9, 2)):
         n += 1
@@ -95,7 +99,7 @@ def cases(tier: str, base_seed: int):  # noqa: ANN201
             continue
         scn = rng.choice(SCN[:-1] if (tier == "quick" or i % 3) else SCN)
         yield {"scenario": scn, "seed": seed, "node": 0 if scn == "dhtcrawl" else rng.randrange(4), "step": rng.randrange(STEPS[scn]),
-               "offset": rng.choice([0.0, 0.003, 0.05, 0.4, 3.0]),
+               "offset": rng.choice([0.0, 0.003, 0.05, 0.4, 3.0]), "ep_kind": rng.choice(["udp", "udp", "tunnel"]),
                "knobs": {"lat_jit": rng.choice([0.0, 0.05]), "loss": rng.choice([0.0, 0.0, 0.1]), "dup": rng.choice([0.0, 0.05]),
                          "timer_jitter": rng.choice([0.0, 0.001])}}
 
@@ -237,6 +241,8 @@ def execute(case: dict) -> dict:  # noqa: C901, PLR0915
     scn = SCENARIOS[case["scenario"]]
     rng = world.stream("c11")
     world.probe("scenario:" + case["scenario"])
+    if case.get("ep_kind") == "tunnel" and case["scenario"] == "multi":
+        world.probe("endpoint_wrapped_in_tunnel_endpoint")
     st: dict = {"unloaded": False, "t": None, "captured": {}, "late": False}
     victim_ovs: list = []
 
